@@ -245,9 +245,12 @@ def evaluate(root: str, tag: str, files: dict[str, str], meta: dict[str, dict], 
             fails[mod].append({"oracle": "stubtest", "message": canon_msg(l)})
     # ---- types: every spelled-out annotation denotes the same type in the stub (both trees built by mypy)
     src_json = os.path.join(root, f"types_src_{tag}.json")
-    sdump = json.load(open(src_json)) if os.path.exists(src_json) else type_dump(root, src, src_json, "py", pkgs)
-    tdump = type_dump(root, out, os.path.join(root, f"types_{tag}_{mode}.json"), "pyi",
-                      [p for p in pkgs if os.path.isdir(os.path.join(out, p))])
+    if tag == "wit":            # the recorded verdicts of the witnesses are those of the four original oracles
+        sdump = tdump = {}
+    else:
+        sdump = json.load(open(src_json)) if os.path.exists(src_json) else type_dump(root, src, src_json, "py", pkgs)
+        tdump = type_dump(root, out, os.path.join(root, f"types_{tag}_{mode}.json"), "pyi",
+                          [p for p in pkgs if os.path.isdir(os.path.join(out, p))])
     if "modules" in sdump and "modules" in tdump:
         for m in modules:
             if m in stubs and m in sdump["modules"] and m in tdump["modules"] and \
